@@ -44,7 +44,8 @@ Only these lexical normalisations are applied to copied text (each counted, see 
      likewise `RECV.and_then(|PAT| EXPR)` becomes `(match RECV { Some(PAT) => EXPR, None => None })`.
      With option `result-map` the same for a Result: `(match RECV { Ok(PAT) => Ok(BODY), Err(e) => Err(e) })`, BODY may be a block
      (the closure is called exactly once, in the Ok case, so inlining it keeps its side effects where they were)
-  N12 (only with option `iter-any-all`) `RECV.iter()[.copied()].any(|PAT| BODY)` / `RECV.iter()[.copied()].all(|PAT| BODY)` with RECV a field path, PAT
+  N12 (only with option `iter-any-all`) `RECV.iter()[.copied()].any(|PAT| BODY)` / `RECV.iter()[.copied()].all(|PAT| BODY)` (also with
+     `.values()` of a map instead of `.iter()`, and with a function path `F` standing for `|x| F(x)`) with RECV a field path, PAT
      `x` or `&x` and a BODY that does not leave the closure become the loop that `Iterator::any` / `Iterator::all` are
      documented to be (short-circuiting on the first hit):
         { let mut __vp_anyK = false; for __vp_eK in RECV.iter() { let x = *__vp_eK; if BODY { __vp_anyK = true; break; } } __vp_anyK }
@@ -936,21 +937,26 @@ def expand(template_path, repo):
                     while True:
                         sc12 = Scan(body)
                         m12 = None
-                        for mm in re.finditer(r'(\b[a-z_]\w*(?:\s*\.\s*[a-z_]\w*)*)\s*\.\s*iter\(\)(\s*\.\s*copied\(\))?\s*\.\s*(any|all)\(\s*\|', body):
+                        for mm in re.finditer(r'(\b[a-z_]\w*(?:\s*\.\s*[a-z_]\w*)*)\s*\.\s*(iter|values)\(\)(\s*\.\s*copied\(\))?\s*\.\s*(any|all)\(', body):
                             if sc12.is_code(mm.start()):
                                 m12 = mm
                                 break
                         if not m12:
                             break
-                        po = body.index('(', m12.start(3))
+                        po = m12.end() - 1
                         pc = sc12.match[po]
-                        cm = re.match(r'\s*\|([^|]*)\|\s*(.*)$', body[po + 1:pc], re.S)
-                        if not cm:
+                        arg12 = body[po + 1:pc]
+                        cm = re.match(r'\s*\|([^|]*)\|\s*(.*)$', arg12, re.S)
+                        if cm:
+                            pat12, expr12 = cm.group(1).strip(), cm.group(2).rstrip()
+                        elif re.fullmatch(r'\s*(?:[A-Za-z_]\w*::)*[a-z_]\w*\s*,?\s*', arg12):
+                            # a function path instead of a closure: `.all(Option::is_some)` is `.all(|x| Option::is_some(x))`
+                            pat12, expr12 = '__vp_x', arg12.strip().rstrip(',').strip() + '(__vp_x)'
+                        else:
                             raise AnchorLost(f'{rel}: fn {qn}: N12: closure not recognised')
-                        pat12, expr12 = cm.group(1).strip(), cm.group(2).rstrip()
                         if re.search(r'\b(return|break|continue)\b|\?', expr12):
                             raise AnchorLost(f'{rel}: fn {qn}: N12: closure body leaves the closure (return / ? / break / continue)')
-                        if m12.group(2):
+                        if m12.group(3):
                             # `.copied()`: the closure gets the element by value
                             if not re.fullmatch(r'[a-z_]\w*', pat12):
                                 raise AnchorLost(f'{rel}: fn {qn}: N12: closure parameter pattern {pat12!r} is not handled')
@@ -964,12 +970,13 @@ def expand(template_path, repo):
                             bind = f'let {pat12[1:].strip()} = *{var}; '
                         else:
                             raise AnchorLost(f'{rel}: fn {qn}: N12: closure parameter pattern {pat12!r} is not handled')
-                        acc = f'__vp_{m12.group(3)}{k12}'
+                        acc = f'__vp_{m12.group(4)}{k12}'
                         recv = body[m12.start(1):m12.end(1)]
-                        if m12.group(3) == 'any':
-                            rep = (f'{{ let mut {acc} = false; for {var} in {recv}.iter() {{ {bind}if {expr12} {{ {acc} = true; break; }} }} {acc} }}')
+                        src12 = m12.group(2)
+                        if m12.group(4) == 'any':
+                            rep = (f'{{ let mut {acc} = false; for {var} in {recv}.{src12}() {{ {bind}if {expr12} {{ {acc} = true; break; }} }} {acc} }}')
                         else:
-                            rep = (f'{{ let mut {acc} = true; for {var} in {recv}.iter() {{ {bind}if !({expr12}) {{ {acc} = false; break; }} }} {acc} }}')
+                            rep = (f'{{ let mut {acc} = true; for {var} in {recv}.{src12}() {{ {bind}if !({expr12}) {{ {acc} = false; break; }} }} {acc} }}')
                         lost = body[m12.start():pc + 1].count('\n') - rep.count('\n')
                         body = body[:m12.start()] + rep + '\n' * max(lost, 0) + body[pc + 1:]
                         norm.counts['N12_iter_any_all_as_loop'] += 1
